@@ -307,6 +307,13 @@ class ClientSSM(SSM):
         # save the request and set the segmentation context
         self.set_segmentation_context(apdu)
 
+        # the server may have announced itself since this transaction was
+        # created, a retry of the request comes through here again
+        if not self.device_info:
+            self.device_info = self.ssmSAP.deviceInfoCache.get_device_info(self.pdu_address)
+            if self.device_info:
+                self.ssmSAP.deviceInfoCache.acquire(self.device_info)
+
         # if the max apdu length of the server isn't known, assume that it
         # is the same size as our own and will be the segment size
         if (not self.device_info) or (self.device_info.maxApduLengthAccepted is None):
